@@ -141,6 +141,8 @@ fn probes(alpha_name: &str, alpha: &[Input]) -> Option<Vec<Vec<usize>>> {
 fn signature(comp: &str, alpha: &[Input], access: &[usize], pr: &[Vec<usize>]) -> String {
     use std::hash::{Hash, Hasher};
     let mut h = std::collections::hash_map::DefaultHasher::new();
+    // what the public getters show is part of the behaviour
+    rebuild(comp, alpha, access).obs().to_string().hash(&mut h);
     for p in pr {
         let mut m = rebuild(comp, alpha, access);
         for &i in p {
@@ -148,6 +150,7 @@ fn signature(comp: &str, alpha: &[Input], access: &[usize], pr: &[Vec<usize>]) -
                 Ok(s) => {
                     s.out.to_string().hash(&mut h);
                     s.query.to_string().hash(&mut h);
+                    m.obs().to_string().hash(&mut h);
                 }
                 Err(msg) => {
                     ("panic", msg).hash(&mut h);
